@@ -642,3 +642,41 @@ def r04_15_alternating_map_crosswise_savings(ctx: Ctx) -> RuleResult:
                     rr.inst()
                     rr.ok({"comparison": unparse(n)[:70]})
     return rr
+
+
+@rule("C04")
+def r04_16_tie_at_the_end_of_time(ctx: Ctx) -> RuleResult:
+    """After the last transition of the last year both rules report their next transition at the end of time; which rule is in
+    force then depends on the hemisphere: whichever of the two PREVIOUS transitions is later was the last one taken.  The method
+    that picks the rule must ask both recurrences for their previous transition and return one rule or the other on a comparison of
+    the two - assuming standard time turns Sydney's last summer into an overlapping standard interval."""
+    rr = RuleResult("R04.16", "standard/daylight alternating map: when both next transitions are at the end of time, the rule in force is decided by comparing the two previous transitions", min_instances=1)
+    M = ctx.M
+    c = M.cls("_StandardDaylightAlternatingMap")
+    fs = [f for f in c.all_defs if not isinstance(f.node, ast.Lambda) and any(isinstance(n, ast.Return) and isinstance(n.value, ast.Tuple) and len(n.value.elts) == 2 and "recurrence" in unparse(n.value.elts[1]) for n in own_nodes(f.node))]
+    if not fs:
+        raise AnalysisError("_StandardDaylightAlternatingMap: no method returning (transition, recurrence) found")
+    for f in fs:
+        rr.inst()
+        prev = {}
+        for n in own_nodes(f.node):
+            if isinstance(n, (ast.Assign, ast.AnnAssign)) and getattr(n, "value", None) is not None and isinstance(n.value, ast.Call) and isinstance(n.value.func, ast.Attribute) and n.value.func.attr.startswith("_previous"):
+                recv = unparse(n.value.func.value)
+                kind = "dst" if recv.endswith("__dst_recurrence") else "standard" if recv.endswith("__standard_recurrence") else None
+                for t in [n.target] if isinstance(n, ast.AnnAssign) else n.targets:
+                    if isinstance(t, ast.Name) and kind:
+                        prev[t.id] = kind
+        decided = False
+        for n in own_nodes(f.node):
+            if isinstance(n, ast.If):
+                used = {prev[x.id] for x in ast.walk(n.test) if isinstance(x, ast.Name) and x.id in prev}
+                if used == {"dst", "standard"} and any(isinstance(x, ast.Compare) for x in ast.walk(n.test)):
+                    decided = True
+        rets = {unparse(n.value.elts[1]).split("__")[-1] for n in own_nodes(f.node) if isinstance(n, ast.Return) and isinstance(n.value, ast.Tuple) and len(n.value.elts) == 2}
+        if set(prev.values()) != {"dst", "standard"}:
+            rr.fail(f.qual, f"the previous transitions of both rules are not consulted (found: {sorted(set(prev.values())) or 'none'}): with both next transitions at the end of time the rule in force cannot be told - a southern-hemisphere zone ends the year in daylight time", ctx.loc(f))
+        elif not decided:
+            rr.fail(f.qual, "no branch compares the two previous transitions: the rule in force at the end of time is assumed", ctx.loc(f))
+        else:
+            rr.ok({"fn": f.qual, "previous transitions": sorted(prev), "rules returned": sorted(rets)})
+    return rr
